@@ -74,6 +74,13 @@ def main(argv=None):
         return 2
     for l in lines:
         print(l)
+    sv = ev["coverage"].get("self_validation")
+    if sv:
+        print(f"[{prop}] self-validation: {sv['variants']} variants, {sv.get('mutants_reported', 0)} breaking edits reported, "
+              f"{sv.get('twins_silent', 0)} behaviour-preserving edits silent, {sv.get('skipped', 0)} skipped")
+        for r in sv.get("rows", []):
+            if r["result"].startswith("skipped"):
+                print(f"   skipped {r['variant']}: {r['result']}")
     cov = ev["coverage"]
     print(f"[{prop}] tier={tier} rules={len(cov['per_rule'])} instances={cov['evaluations']} "
           f"distinct={cov['distinct_nontrivial']} violations={ev['violations']} "
